@@ -40,6 +40,8 @@ var ghost struct {
 	trTold [65536]int
 	told   [65536]int
 
+	ioPC uintptr // program counter returned by the latest getpc call (C14)
+
 	warns int // number of diagnostic Warn calls issued by printOut after a failed destination (C13)
 }
 
@@ -120,8 +122,34 @@ func specInterrupts() bool {
 //@   requires s != nil
 //@   ensures [C01.spec] result == specAdmits(s.level, lvl)
 
+// ---------------------------------------------------------------- C14 caller attribution
+// fd is the ghost "frame distance": a public entry point runs at fd == 0 (the statement in user code that
+// issued the record is one frame above it), every call adds one. Assumed contract of the runtime: called
+// from a function at distance h, runtime.Callers(n) reports the user's frame iff n == h + 2, and n + k the
+// frame k levels further up.
+
 //@ func getpc
+//@   props C14
+//@   requires [C14.skip] skip == fd + 1
+//@   requires [C14.extra-range] 0 <= extra && extra <= 1048576 && 0 <= skip && skip <= 1048576
+//@   posteffect ghost.ioPC = pc
+//@   at call runtime.Callers assert [C14.frame] callee.skip == fd + 2 + extra
+
+//@ func convertLogSlogRecordAttrs
 //@   trusted
+
+//@ func (*handler4LogSlog).Handle
+//@   props C14 C15
+//@   auto
+//@   requires !isnil(s.Logger)
+//@   fd 2
+//@   at call runtime.Callers assert [C14.frame] implies(0 <= ei && ei <= 1048576, callee.skip == fd + 2 + ei)
+
+//@ func (*handlerWriter).Write
+//@   props C14 C15
+//@   auto
+//@   requires !isnil(s.l) && 0 <= s.extraFrames && s.extraFrames <= 1048576
+//@   fd 2
 
 //@ func (*Entry).collectArgs
 //@   props C02 C07
@@ -183,8 +211,8 @@ func specInterrupts() bool {
 // ---- generated by /verif/tools/gen_c01.py: one block per public entry point
 
 //@ func (*Entry).Panic
-//@   props C01 C02 C12 C13
-//@   requires s != nil && specFmtInv(s)
+//@   props C01 C02 C12 C13 C14
+//@   requires s != nil && specFmtInv(s) && 0 <= s.extraFrames && s.extraFrames <= 1048576
 //@   assigns everything
 //@   keeps PrintCtx.off, PrintCtx.lvl
 //@   panics [C12.panic] when specAdmits(s.level, PanicLevel) && specInterrupts() && isnil(s.handlerOpt)
@@ -202,10 +230,11 @@ func specInterrupts() bool {
 //@   ensures [C01.gate] implies(!old(specAdmits(s.level, PanicLevel)), ghost.emits == old(ghost.emits))
 //@   ensures [C01.emit] implies(old(specAdmits(s.level, PanicLevel)), ghost.emits > old(ghost.emits))
 //@   at call (*Entry).log1 assert [C01.sev] callee.lvl == PanicLevel && callee.s == s
+//@   fd entry
 //@
 //@ func (*Entry).Fatal
-//@   props C01 C02 C12 C13
-//@   requires s != nil && specFmtInv(s)
+//@   props C01 C02 C12 C13 C14
+//@   requires s != nil && specFmtInv(s) && 0 <= s.extraFrames && s.extraFrames <= 1048576
 //@   assigns everything
 //@   keeps PrintCtx.off, PrintCtx.lvl
 //@   exits [C12.exit] when specAdmits(s.level, FatalLevel) && specInterrupts() && isnil(s.handlerOpt)
@@ -223,10 +252,11 @@ func specInterrupts() bool {
 //@   ensures [C01.gate] implies(!old(specAdmits(s.level, FatalLevel)), ghost.emits == old(ghost.emits))
 //@   ensures [C01.emit] implies(old(specAdmits(s.level, FatalLevel)), ghost.emits > old(ghost.emits))
 //@   at call (*Entry).log1 assert [C01.sev] callee.lvl == FatalLevel && callee.s == s
+//@   fd entry
 //@
 //@ func (*Entry).Error
-//@   props C01 C02 C12 C13
-//@   requires s != nil && specFmtInv(s)
+//@   props C01 C02 C12 C13 C14
+//@   requires s != nil && specFmtInv(s) && 0 <= s.extraFrames && s.extraFrames <= 1048576
 //@   assigns everything
 //@   keeps PrintCtx.off, PrintCtx.lvl
 //@   requires defaultWriter != nil && ghost.trN >= 0
@@ -243,10 +273,11 @@ func specInterrupts() bool {
 //@   ensures [C01.gate] implies(!old(specAdmits(s.level, ErrorLevel)), ghost.emits == old(ghost.emits))
 //@   ensures [C01.emit] implies(old(specAdmits(s.level, ErrorLevel)), ghost.emits > old(ghost.emits))
 //@   at call (*Entry).log1 assert [C01.sev] callee.lvl == ErrorLevel && callee.s == s
+//@   fd entry
 //@
 //@ func (*Entry).Warn
-//@   props C01 C02 C12 C13
-//@   requires s != nil && specFmtInv(s)
+//@   props C01 C02 C12 C13 C14
+//@   requires s != nil && specFmtInv(s) && 0 <= s.extraFrames && s.extraFrames <= 1048576
 //@   assigns everything
 //@   keeps PrintCtx.off, PrintCtx.lvl
 //@   requires defaultWriter != nil && ghost.trN >= 0
@@ -263,10 +294,11 @@ func specInterrupts() bool {
 //@   ensures [C01.gate] implies(!old(specAdmits(s.level, WarnLevel)), ghost.emits == old(ghost.emits))
 //@   ensures [C01.emit] implies(old(specAdmits(s.level, WarnLevel)), ghost.emits > old(ghost.emits))
 //@   at call (*Entry).log1 assert [C01.sev] callee.lvl == WarnLevel && callee.s == s
+//@   fd entry
 //@
 //@ func (*Entry).Info
-//@   props C01 C02 C12 C13
-//@   requires s != nil && specFmtInv(s)
+//@   props C01 C02 C12 C13 C14
+//@   requires s != nil && specFmtInv(s) && 0 <= s.extraFrames && s.extraFrames <= 1048576
 //@   assigns everything
 //@   keeps PrintCtx.off, PrintCtx.lvl
 //@   requires defaultWriter != nil && ghost.trN >= 0
@@ -283,10 +315,11 @@ func specInterrupts() bool {
 //@   ensures [C01.gate] implies(!old(specAdmits(s.level, InfoLevel)), ghost.emits == old(ghost.emits))
 //@   ensures [C01.emit] implies(old(specAdmits(s.level, InfoLevel)), ghost.emits > old(ghost.emits))
 //@   at call (*Entry).log1 assert [C01.sev] callee.lvl == InfoLevel && callee.s == s
+//@   fd entry
 //@
 //@ func (*Entry).Debug
-//@   props C01 C02 C12 C13
-//@   requires s != nil && specFmtInv(s)
+//@   props C01 C02 C12 C13 C14
+//@   requires s != nil && specFmtInv(s) && 0 <= s.extraFrames && s.extraFrames <= 1048576
 //@   assigns everything
 //@   keeps PrintCtx.off, PrintCtx.lvl
 //@   requires defaultWriter != nil && ghost.trN >= 0
@@ -303,10 +336,11 @@ func specInterrupts() bool {
 //@   ensures [C01.gate] implies(!old(specAdmits(s.level, DebugLevel)), ghost.emits == old(ghost.emits))
 //@   ensures [C01.emit] implies(old(specAdmits(s.level, DebugLevel)), ghost.emits > old(ghost.emits))
 //@   at call (*Entry).log1 assert [C01.sev] callee.lvl == DebugLevel && callee.s == s
+//@   fd entry
 //@
 //@ func (*Entry).Trace
-//@   props C01 C02 C12 C13
-//@   requires s != nil && specFmtInv(s)
+//@   props C01 C02 C12 C13 C14
+//@   requires s != nil && specFmtInv(s) && 0 <= s.extraFrames && s.extraFrames <= 1048576
 //@   assigns everything
 //@   keeps PrintCtx.off, PrintCtx.lvl
 //@   requires defaultWriter != nil && ghost.trN >= 0
@@ -323,10 +357,11 @@ func specInterrupts() bool {
 //@   ensures [C01.gate] implies(!old(specAdmits(s.level, TraceLevel)), ghost.emits == old(ghost.emits))
 //@   ensures [C01.emit] implies(old(specAdmits(s.level, TraceLevel)), ghost.emits > old(ghost.emits))
 //@   at call (*Entry).log1 assert [C01.sev] callee.lvl == TraceLevel && callee.s == s
+//@   fd entry
 //@
 //@ func (*Entry).Print
-//@   props C01 C02 C12 C13
-//@   requires s != nil && specFmtInv(s)
+//@   props C01 C02 C12 C13 C14
+//@   requires s != nil && specFmtInv(s) && 0 <= s.extraFrames && s.extraFrames <= 1048576
 //@   assigns everything
 //@   keeps PrintCtx.off, PrintCtx.lvl
 //@   requires defaultWriter != nil && ghost.trN >= 0
@@ -343,10 +378,11 @@ func specInterrupts() bool {
 //@   ensures [C01.gate] implies(!old(specAdmits(s.level, AlwaysLevel)), ghost.emits == old(ghost.emits))
 //@   ensures [C01.emit] implies(old(specAdmits(s.level, AlwaysLevel)), ghost.emits > old(ghost.emits))
 //@   at call (*Entry).log1 assert [C01.sev] callee.lvl == AlwaysLevel && callee.s == s
+//@   fd entry
 //@
 //@ func (*Entry).OK
-//@   props C01 C02 C12 C13
-//@   requires s != nil && specFmtInv(s)
+//@   props C01 C02 C12 C13 C14
+//@   requires s != nil && specFmtInv(s) && 0 <= s.extraFrames && s.extraFrames <= 1048576
 //@   assigns everything
 //@   keeps PrintCtx.off, PrintCtx.lvl
 //@   requires defaultWriter != nil && ghost.trN >= 0
@@ -363,10 +399,11 @@ func specInterrupts() bool {
 //@   ensures [C01.gate] implies(!old(specAdmits(s.level, OKLevel)), ghost.emits == old(ghost.emits))
 //@   ensures [C01.emit] implies(old(specAdmits(s.level, OKLevel)), ghost.emits > old(ghost.emits))
 //@   at call (*Entry).log1 assert [C01.sev] callee.lvl == OKLevel && callee.s == s
+//@   fd entry
 //@
 //@ func (*Entry).Success
-//@   props C01 C02 C12 C13
-//@   requires s != nil && specFmtInv(s)
+//@   props C01 C02 C12 C13 C14
+//@   requires s != nil && specFmtInv(s) && 0 <= s.extraFrames && s.extraFrames <= 1048576
 //@   assigns everything
 //@   keeps PrintCtx.off, PrintCtx.lvl
 //@   requires defaultWriter != nil && ghost.trN >= 0
@@ -383,10 +420,11 @@ func specInterrupts() bool {
 //@   ensures [C01.gate] implies(!old(specAdmits(s.level, SuccessLevel)), ghost.emits == old(ghost.emits))
 //@   ensures [C01.emit] implies(old(specAdmits(s.level, SuccessLevel)), ghost.emits > old(ghost.emits))
 //@   at call (*Entry).log1 assert [C01.sev] callee.lvl == SuccessLevel && callee.s == s
+//@   fd entry
 //@
 //@ func (*Entry).Fail
-//@   props C01 C02 C12 C13
-//@   requires s != nil && specFmtInv(s)
+//@   props C01 C02 C12 C13 C14
+//@   requires s != nil && specFmtInv(s) && 0 <= s.extraFrames && s.extraFrames <= 1048576
 //@   assigns everything
 //@   keeps PrintCtx.off, PrintCtx.lvl
 //@   requires defaultWriter != nil && ghost.trN >= 0
@@ -403,10 +441,11 @@ func specInterrupts() bool {
 //@   ensures [C01.gate] implies(!old(specAdmits(s.level, FailLevel)), ghost.emits == old(ghost.emits))
 //@   ensures [C01.emit] implies(old(specAdmits(s.level, FailLevel)), ghost.emits > old(ghost.emits))
 //@   at call (*Entry).log1 assert [C01.sev] callee.lvl == FailLevel && callee.s == s
+//@   fd entry
 //@
 //@ func (*Entry).Println
-//@   props C01 C02 C12 C13
-//@   requires s != nil && specFmtInv(s)
+//@   props C01 C02 C12 C13 C14
+//@   requires s != nil && specFmtInv(s) && 0 <= s.extraFrames && s.extraFrames <= 1048576
 //@   assigns everything
 //@   keeps PrintCtx.off, PrintCtx.lvl
 //@   requires defaultWriter != nil && ghost.trN >= 0
@@ -423,10 +462,11 @@ func specInterrupts() bool {
 //@   ensures [C01.gate] implies(!old(specAdmits(s.level, AlwaysLevel)), ghost.emits == old(ghost.emits))
 //@   ensures [C01.emit] implies(old(specAdmits(s.level, AlwaysLevel)), ghost.emits > old(ghost.emits))
 //@   at call (*Entry).log1 assert [C01.sev] callee.lvl == AlwaysLevel && callee.s == s
+//@   fd entry
 //@
 //@ func (*Entry).PanicContext
-//@   props C01 C02 C12 C13
-//@   requires s != nil && specFmtInv(s)
+//@   props C01 C02 C12 C13 C14
+//@   requires s != nil && specFmtInv(s) && 0 <= s.extraFrames && s.extraFrames <= 1048576
 //@   assigns everything
 //@   keeps PrintCtx.off, PrintCtx.lvl
 //@   panics [C12.panic] when specAdmits(s.level, PanicLevel) && specInterrupts() && isnil(s.handlerOpt)
@@ -444,10 +484,13 @@ func specInterrupts() bool {
 //@   ensures [C01.gate] implies(!old(specAdmits(s.level, PanicLevel)), ghost.emits == old(ghost.emits))
 //@   ensures [C01.emit] implies(old(specAdmits(s.level, PanicLevel)), ghost.emits > old(ghost.emits))
 //@   at call (*Entry).logContext assert [C01.sev] callee.lvl == PanicLevel && callee.s == s
+//@   fd entry
+//@   at call getpc assert [C14.extra] callee.extra == s.extraFrames
+//@   at call (*Entry).logContext assert [C14.pc] callee.stackFrame == ghost.ioPC
 //@
 //@ func (*Entry).FatalContext
-//@   props C01 C02 C12 C13
-//@   requires s != nil && specFmtInv(s)
+//@   props C01 C02 C12 C13 C14
+//@   requires s != nil && specFmtInv(s) && 0 <= s.extraFrames && s.extraFrames <= 1048576
 //@   assigns everything
 //@   keeps PrintCtx.off, PrintCtx.lvl
 //@   exits [C12.exit] when specAdmits(s.level, FatalLevel) && specInterrupts() && isnil(s.handlerOpt)
@@ -465,10 +508,13 @@ func specInterrupts() bool {
 //@   ensures [C01.gate] implies(!old(specAdmits(s.level, FatalLevel)), ghost.emits == old(ghost.emits))
 //@   ensures [C01.emit] implies(old(specAdmits(s.level, FatalLevel)), ghost.emits > old(ghost.emits))
 //@   at call (*Entry).logContext assert [C01.sev] callee.lvl == FatalLevel && callee.s == s
+//@   fd entry
+//@   at call getpc assert [C14.extra] callee.extra == s.extraFrames
+//@   at call (*Entry).logContext assert [C14.pc] callee.stackFrame == ghost.ioPC
 //@
 //@ func (*Entry).ErrorContext
-//@   props C01 C02 C12 C13
-//@   requires s != nil && specFmtInv(s)
+//@   props C01 C02 C12 C13 C14
+//@   requires s != nil && specFmtInv(s) && 0 <= s.extraFrames && s.extraFrames <= 1048576
 //@   assigns everything
 //@   keeps PrintCtx.off, PrintCtx.lvl
 //@   requires defaultWriter != nil && ghost.trN >= 0
@@ -485,10 +531,13 @@ func specInterrupts() bool {
 //@   ensures [C01.gate] implies(!old(specAdmits(s.level, ErrorLevel)), ghost.emits == old(ghost.emits))
 //@   ensures [C01.emit] implies(old(specAdmits(s.level, ErrorLevel)), ghost.emits > old(ghost.emits))
 //@   at call (*Entry).logContext assert [C01.sev] callee.lvl == ErrorLevel && callee.s == s
+//@   fd entry
+//@   at call getpc assert [C14.extra] callee.extra == s.extraFrames
+//@   at call (*Entry).logContext assert [C14.pc] callee.stackFrame == ghost.ioPC
 //@
 //@ func (*Entry).WarnContext
-//@   props C01 C02 C12 C13
-//@   requires s != nil && specFmtInv(s)
+//@   props C01 C02 C12 C13 C14
+//@   requires s != nil && specFmtInv(s) && 0 <= s.extraFrames && s.extraFrames <= 1048576
 //@   assigns everything
 //@   keeps PrintCtx.off, PrintCtx.lvl
 //@   requires defaultWriter != nil && ghost.trN >= 0
@@ -505,10 +554,13 @@ func specInterrupts() bool {
 //@   ensures [C01.gate] implies(!old(specAdmits(s.level, WarnLevel)), ghost.emits == old(ghost.emits))
 //@   ensures [C01.emit] implies(old(specAdmits(s.level, WarnLevel)), ghost.emits > old(ghost.emits))
 //@   at call (*Entry).logContext assert [C01.sev] callee.lvl == WarnLevel && callee.s == s
+//@   fd entry
+//@   at call getpc assert [C14.extra] callee.extra == s.extraFrames
+//@   at call (*Entry).logContext assert [C14.pc] callee.stackFrame == ghost.ioPC
 //@
 //@ func (*Entry).InfoContext
-//@   props C01 C02 C12 C13
-//@   requires s != nil && specFmtInv(s)
+//@   props C01 C02 C12 C13 C14
+//@   requires s != nil && specFmtInv(s) && 0 <= s.extraFrames && s.extraFrames <= 1048576
 //@   assigns everything
 //@   keeps PrintCtx.off, PrintCtx.lvl
 //@   requires defaultWriter != nil && ghost.trN >= 0
@@ -525,10 +577,13 @@ func specInterrupts() bool {
 //@   ensures [C01.gate] implies(!old(specAdmits(s.level, InfoLevel)), ghost.emits == old(ghost.emits))
 //@   ensures [C01.emit] implies(old(specAdmits(s.level, InfoLevel)), ghost.emits > old(ghost.emits))
 //@   at call (*Entry).logContext assert [C01.sev] callee.lvl == InfoLevel && callee.s == s
+//@   fd entry
+//@   at call getpc assert [C14.extra] callee.extra == s.extraFrames
+//@   at call (*Entry).logContext assert [C14.pc] callee.stackFrame == ghost.ioPC
 //@
 //@ func (*Entry).DebugContext
-//@   props C01 C02 C12 C13
-//@   requires s != nil && specFmtInv(s)
+//@   props C01 C02 C12 C13 C14
+//@   requires s != nil && specFmtInv(s) && 0 <= s.extraFrames && s.extraFrames <= 1048576
 //@   assigns everything
 //@   keeps PrintCtx.off, PrintCtx.lvl
 //@   requires defaultWriter != nil && ghost.trN >= 0
@@ -545,10 +600,13 @@ func specInterrupts() bool {
 //@   ensures [C01.gate] implies(!old(specAdmits(s.level, DebugLevel)), ghost.emits == old(ghost.emits))
 //@   ensures [C01.emit] implies(old(specAdmits(s.level, DebugLevel)), ghost.emits > old(ghost.emits))
 //@   at call (*Entry).logContext assert [C01.sev] callee.lvl == DebugLevel && callee.s == s
+//@   fd entry
+//@   at call getpc assert [C14.extra] callee.extra == s.extraFrames
+//@   at call (*Entry).logContext assert [C14.pc] callee.stackFrame == ghost.ioPC
 //@
 //@ func (*Entry).TraceContext
-//@   props C01 C02 C12 C13
-//@   requires s != nil && specFmtInv(s)
+//@   props C01 C02 C12 C13 C14
+//@   requires s != nil && specFmtInv(s) && 0 <= s.extraFrames && s.extraFrames <= 1048576
 //@   assigns everything
 //@   keeps PrintCtx.off, PrintCtx.lvl
 //@   requires defaultWriter != nil && ghost.trN >= 0
@@ -565,10 +623,13 @@ func specInterrupts() bool {
 //@   ensures [C01.gate] implies(!old(specAdmits(s.level, TraceLevel)), ghost.emits == old(ghost.emits))
 //@   ensures [C01.emit] implies(old(specAdmits(s.level, TraceLevel)), ghost.emits > old(ghost.emits))
 //@   at call (*Entry).logContext assert [C01.sev] callee.lvl == TraceLevel && callee.s == s
+//@   fd entry
+//@   at call getpc assert [C14.extra] callee.extra == s.extraFrames
+//@   at call (*Entry).logContext assert [C14.pc] callee.stackFrame == ghost.ioPC
 //@
 //@ func (*Entry).PrintContext
-//@   props C01 C02 C12 C13
-//@   requires s != nil && specFmtInv(s)
+//@   props C01 C02 C12 C13 C14
+//@   requires s != nil && specFmtInv(s) && 0 <= s.extraFrames && s.extraFrames <= 1048576
 //@   assigns everything
 //@   keeps PrintCtx.off, PrintCtx.lvl
 //@   requires defaultWriter != nil && ghost.trN >= 0
@@ -585,10 +646,13 @@ func specInterrupts() bool {
 //@   ensures [C01.gate] implies(!old(specAdmits(s.level, AlwaysLevel)), ghost.emits == old(ghost.emits))
 //@   ensures [C01.emit] implies(old(specAdmits(s.level, AlwaysLevel)), ghost.emits > old(ghost.emits))
 //@   at call (*Entry).logContext assert [C01.sev] callee.lvl == AlwaysLevel && callee.s == s
+//@   fd entry
+//@   at call getpc assert [C14.extra] callee.extra == s.extraFrames
+//@   at call (*Entry).logContext assert [C14.pc] callee.stackFrame == ghost.ioPC
 //@
 //@ func (*Entry).OKContext
-//@   props C01 C02 C12 C13
-//@   requires s != nil && specFmtInv(s)
+//@   props C01 C02 C12 C13 C14
+//@   requires s != nil && specFmtInv(s) && 0 <= s.extraFrames && s.extraFrames <= 1048576
 //@   assigns everything
 //@   keeps PrintCtx.off, PrintCtx.lvl
 //@   requires defaultWriter != nil && ghost.trN >= 0
@@ -605,10 +669,13 @@ func specInterrupts() bool {
 //@   ensures [C01.gate] implies(!old(specAdmits(s.level, OKLevel)), ghost.emits == old(ghost.emits))
 //@   ensures [C01.emit] implies(old(specAdmits(s.level, OKLevel)), ghost.emits > old(ghost.emits))
 //@   at call (*Entry).logContext assert [C01.sev] callee.lvl == OKLevel && callee.s == s
+//@   fd entry
+//@   at call getpc assert [C14.extra] callee.extra == s.extraFrames
+//@   at call (*Entry).logContext assert [C14.pc] callee.stackFrame == ghost.ioPC
 //@
 //@ func (*Entry).SuccessContext
-//@   props C01 C02 C12 C13
-//@   requires s != nil && specFmtInv(s)
+//@   props C01 C02 C12 C13 C14
+//@   requires s != nil && specFmtInv(s) && 0 <= s.extraFrames && s.extraFrames <= 1048576
 //@   assigns everything
 //@   keeps PrintCtx.off, PrintCtx.lvl
 //@   requires defaultWriter != nil && ghost.trN >= 0
@@ -625,10 +692,13 @@ func specInterrupts() bool {
 //@   ensures [C01.gate] implies(!old(specAdmits(s.level, SuccessLevel)), ghost.emits == old(ghost.emits))
 //@   ensures [C01.emit] implies(old(specAdmits(s.level, SuccessLevel)), ghost.emits > old(ghost.emits))
 //@   at call (*Entry).logContext assert [C01.sev] callee.lvl == SuccessLevel && callee.s == s
+//@   fd entry
+//@   at call getpc assert [C14.extra] callee.extra == s.extraFrames
+//@   at call (*Entry).logContext assert [C14.pc] callee.stackFrame == ghost.ioPC
 //@
 //@ func (*Entry).FailContext
-//@   props C01 C02 C12 C13
-//@   requires s != nil && specFmtInv(s)
+//@   props C01 C02 C12 C13 C14
+//@   requires s != nil && specFmtInv(s) && 0 <= s.extraFrames && s.extraFrames <= 1048576
 //@   assigns everything
 //@   keeps PrintCtx.off, PrintCtx.lvl
 //@   requires defaultWriter != nil && ghost.trN >= 0
@@ -645,10 +715,13 @@ func specInterrupts() bool {
 //@   ensures [C01.gate] implies(!old(specAdmits(s.level, FailLevel)), ghost.emits == old(ghost.emits))
 //@   ensures [C01.emit] implies(old(specAdmits(s.level, FailLevel)), ghost.emits > old(ghost.emits))
 //@   at call (*Entry).logContext assert [C01.sev] callee.lvl == FailLevel && callee.s == s
+//@   fd entry
+//@   at call getpc assert [C14.extra] callee.extra == s.extraFrames
+//@   at call (*Entry).logContext assert [C14.pc] callee.stackFrame == ghost.ioPC
 //@
 //@ func (*Entry).PrintlnContext
-//@   props C01 C02 C12 C13
-//@   requires s != nil && specFmtInv(s)
+//@   props C01 C02 C12 C13 C14
+//@   requires s != nil && specFmtInv(s) && 0 <= s.extraFrames && s.extraFrames <= 1048576
 //@   assigns everything
 //@   keeps PrintCtx.off, PrintCtx.lvl
 //@   requires defaultWriter != nil && ghost.trN >= 0
@@ -665,10 +738,13 @@ func specInterrupts() bool {
 //@   ensures [C01.gate] implies(!old(specAdmits(s.level, AlwaysLevel)), ghost.emits == old(ghost.emits))
 //@   ensures [C01.emit] implies(old(specAdmits(s.level, AlwaysLevel)), ghost.emits > old(ghost.emits))
 //@   at call (*Entry).logContext assert [C01.sev] callee.lvl == AlwaysLevel && callee.s == s
+//@   fd entry
+//@   at call getpc assert [C14.extra] callee.extra == s.extraFrames
+//@   at call (*Entry).logContext assert [C14.pc] callee.stackFrame == ghost.ioPC
 //@
 //@ func (*Entry).LogAttrs
-//@   props C01 C02 C12 C13
-//@   requires s != nil && specFmtInv(s)
+//@   props C01 C02 C12 C13 C14
+//@   requires s != nil && specFmtInv(s) && 0 <= s.extraFrames && s.extraFrames <= 1048576
 //@   assigns everything
 //@   keeps PrintCtx.off, PrintCtx.lvl
 //@   panics [C12.panic] when level == PanicLevel && specAdmits(s.level, level) && specInterrupts() && isnil(s.handlerOpt)
@@ -687,10 +763,13 @@ func specInterrupts() bool {
 //@   ensures [C01.gate] implies(!old(specAdmits(s.level, level)), ghost.emits == old(ghost.emits))
 //@   ensures [C01.emit] implies(old(specAdmits(s.level, level)), ghost.emits > old(ghost.emits))
 //@   at call (*Entry).logContext assert [C01.sev] callee.lvl == level && callee.s == s
+//@   fd entry
+//@   at call getpc assert [C14.extra] callee.extra == s.extraFrames
+//@   at call (*Entry).logContext assert [C14.pc] callee.stackFrame == ghost.ioPC
 //@
 //@ func (*Entry).Logit
-//@   props C01 C02 C12 C13
-//@   requires s != nil && specFmtInv(s)
+//@   props C01 C02 C12 C13 C14
+//@   requires s != nil && specFmtInv(s) && 0 <= s.extraFrames && s.extraFrames <= 1048576
 //@   assigns everything
 //@   keeps PrintCtx.off, PrintCtx.lvl
 //@   panics [C12.panic] when level == PanicLevel && specAdmits(s.level, level) && specInterrupts() && isnil(s.handlerOpt)
@@ -709,10 +788,13 @@ func specInterrupts() bool {
 //@   ensures [C01.gate] implies(!old(specAdmits(s.level, level)), ghost.emits == old(ghost.emits))
 //@   ensures [C01.emit] implies(old(specAdmits(s.level, level)), ghost.emits > old(ghost.emits))
 //@   at call (*Entry).logContext assert [C01.sev] callee.lvl == level && callee.s == s
+//@   fd entry
+//@   at call getpc assert [C14.extra] callee.extra == s.extraFrames
+//@   at call (*Entry).logContext assert [C14.pc] callee.stackFrame == ghost.ioPC
 //@
 //@ func (*Entry).Log
-//@   props C01 C02 C12 C13
-//@   requires s != nil && specFmtInv(s)
+//@   props C01 C02 C12 C13 C14
+//@   requires s != nil && specFmtInv(s) && 0 <= s.extraFrames && s.extraFrames <= 1048576
 //@   assigns everything
 //@   keeps PrintCtx.off, PrintCtx.lvl
 //@   panics [C12.panic] when logsloglevel2Level(level) == PanicLevel && specAdmits(s.level, logsloglevel2Level(level)) && specInterrupts() && isnil(s.handlerOpt)
@@ -731,10 +813,13 @@ func specInterrupts() bool {
 //@   ensures [C01.gate] implies(!old(specAdmits(s.level, logsloglevel2Level(level))), ghost.emits == old(ghost.emits))
 //@   ensures [C01.emit] implies(old(specAdmits(s.level, logsloglevel2Level(level))), ghost.emits > old(ghost.emits))
 //@   at call (*Entry).logContext assert [C01.sev] callee.lvl == logsloglevel2Level(level) && callee.s == s
+//@   fd entry
+//@   at call getpc assert [C14.extra] callee.extra == s.extraFrames
+//@   at call (*Entry).logContext assert [C14.pc] callee.stackFrame == ghost.ioPC
 //@
 //@ func (*Entry).Infof
-//@   props C01 C02 C12 C13
-//@   requires s != nil && specFmtInv(s)
+//@   props C01 C02 C12 C13 C14
+//@   requires s != nil && specFmtInv(s) && 0 <= s.extraFrames && s.extraFrames <= 1048576
 //@   assigns everything
 //@   keeps PrintCtx.off, PrintCtx.lvl
 //@   requires defaultWriter != nil && ghost.trN >= 0
@@ -751,10 +836,13 @@ func specInterrupts() bool {
 //@   ensures [C01.gate] implies(!old(specAdmits(s.level, InfoLevel)), ghost.emits == old(ghost.emits))
 //@   ensures [C01.emit] implies(old(specAdmits(s.level, InfoLevel)), ghost.emits > old(ghost.emits))
 //@   at call (*Entry).logContext assert [C01.sev] callee.lvl == InfoLevel && callee.s == s
+//@   fd entry
+//@   at call getpc assert [C14.extra] callee.extra == s.extraFrames
+//@   at call (*Entry).logContext assert [C14.pc] callee.stackFrame == ghost.ioPC
 //@
 //@ func (*Entry).Warnf
-//@   props C01 C02 C12 C13
-//@   requires s != nil && specFmtInv(s)
+//@   props C01 C02 C12 C13 C14
+//@   requires s != nil && specFmtInv(s) && 0 <= s.extraFrames && s.extraFrames <= 1048576
 //@   assigns everything
 //@   keeps PrintCtx.off, PrintCtx.lvl
 //@   requires defaultWriter != nil && ghost.trN >= 0
@@ -771,10 +859,13 @@ func specInterrupts() bool {
 //@   ensures [C01.gate] implies(!old(specAdmits(s.level, WarnLevel)), ghost.emits == old(ghost.emits))
 //@   ensures [C01.emit] implies(old(specAdmits(s.level, WarnLevel)), ghost.emits > old(ghost.emits))
 //@   at call (*Entry).logContext assert [C01.sev] callee.lvl == WarnLevel && callee.s == s
+//@   fd entry
+//@   at call getpc assert [C14.extra] callee.extra == s.extraFrames
+//@   at call (*Entry).logContext assert [C14.pc] callee.stackFrame == ghost.ioPC
 //@
 //@ func (*Entry).Errorf
-//@   props C01 C02 C12 C13
-//@   requires s != nil && specFmtInv(s)
+//@   props C01 C02 C12 C13 C14
+//@   requires s != nil && specFmtInv(s) && 0 <= s.extraFrames && s.extraFrames <= 1048576
 //@   assigns everything
 //@   keeps PrintCtx.off, PrintCtx.lvl
 //@   requires defaultWriter != nil && ghost.trN >= 0
@@ -791,10 +882,13 @@ func specInterrupts() bool {
 //@   ensures [C01.gate] implies(!old(specAdmits(s.level, ErrorLevel)), ghost.emits == old(ghost.emits))
 //@   ensures [C01.emit] implies(old(specAdmits(s.level, ErrorLevel)), ghost.emits > old(ghost.emits))
 //@   at call (*Entry).logContext assert [C01.sev] callee.lvl == ErrorLevel && callee.s == s
+//@   fd entry
+//@   at call getpc assert [C14.extra] callee.extra == s.extraFrames
+//@   at call (*Entry).logContext assert [C14.pc] callee.stackFrame == ghost.ioPC
 //@
 //@ func (*Entry).log1
-//@   props C01 C02 C12 C13
-//@   requires s != nil && specFmtInv(s)
+//@   props C01 C02 C12 C13 C14
+//@   requires s != nil && specFmtInv(s) && 0 <= s.extraFrames && s.extraFrames <= 1048576
 //@   assigns everything
 //@   keeps PrintCtx.off, PrintCtx.lvl
 //@   panics [C12.panic] when lvl == PanicLevel && specAdmits(s.level, lvl) && specInterrupts() && isnil(s.handlerOpt)
@@ -813,10 +907,13 @@ func specInterrupts() bool {
 //@   ensures [C01.gate] implies(!old(specAdmits(s.level, lvl)), ghost.emits == old(ghost.emits))
 //@   ensures [C01.emit] implies(old(specAdmits(s.level, lvl)), ghost.emits > old(ghost.emits))
 //@   at call (*Entry).logContext assert [C01.sev] callee.lvl == lvl && callee.s == s
+//@   fd 1
+//@   at call getpc assert [C14.extra] callee.extra == s.extraFrames
+//@   at call (*Entry).logContext assert [C14.pc] callee.stackFrame == ghost.ioPC
 //@
 //@ func Panic
-//@   props C01 C02 C12 C13
-//@   requires specDefaultEntry() != nil && specFmtInv(specDefaultEntry())
+//@   props C01 C02 C12 C13 C14
+//@   requires specDefaultEntry() != nil && specFmtInv(specDefaultEntry()) && 0 <= specDefaultEntry().extraFrames && specDefaultEntry().extraFrames <= 1048576
 //@   assigns everything
 //@   keeps PrintCtx.off, PrintCtx.lvl
 //@   panics [C12.panic] when specAdmits(specDefaultEntry().level, PanicLevel) && specInterrupts() && isnil(specDefaultEntry().handlerOpt)
@@ -834,10 +931,11 @@ func specInterrupts() bool {
 //@   ensures [C01.gate] implies(!old(specAdmits(specDefaultEntry().level, PanicLevel)), ghost.emits == old(ghost.emits))
 //@   ensures [C01.emit] implies(old(specAdmits(specDefaultEntry().level, PanicLevel)), ghost.emits > old(ghost.emits))
 //@   at call logctx assert [C01.sev] callee.lvl == PanicLevel
+//@   fd entry
 //@
 //@ func Fatal
-//@   props C01 C02 C12 C13
-//@   requires specDefaultEntry() != nil && specFmtInv(specDefaultEntry())
+//@   props C01 C02 C12 C13 C14
+//@   requires specDefaultEntry() != nil && specFmtInv(specDefaultEntry()) && 0 <= specDefaultEntry().extraFrames && specDefaultEntry().extraFrames <= 1048576
 //@   assigns everything
 //@   keeps PrintCtx.off, PrintCtx.lvl
 //@   exits [C12.exit] when specAdmits(specDefaultEntry().level, FatalLevel) && specInterrupts() && isnil(specDefaultEntry().handlerOpt)
@@ -855,10 +953,11 @@ func specInterrupts() bool {
 //@   ensures [C01.gate] implies(!old(specAdmits(specDefaultEntry().level, FatalLevel)), ghost.emits == old(ghost.emits))
 //@   ensures [C01.emit] implies(old(specAdmits(specDefaultEntry().level, FatalLevel)), ghost.emits > old(ghost.emits))
 //@   at call logctx assert [C01.sev] callee.lvl == FatalLevel
+//@   fd entry
 //@
 //@ func Error
-//@   props C01 C02 C12 C13
-//@   requires specDefaultEntry() != nil && specFmtInv(specDefaultEntry())
+//@   props C01 C02 C12 C13 C14
+//@   requires specDefaultEntry() != nil && specFmtInv(specDefaultEntry()) && 0 <= specDefaultEntry().extraFrames && specDefaultEntry().extraFrames <= 1048576
 //@   assigns everything
 //@   keeps PrintCtx.off, PrintCtx.lvl
 //@   requires defaultWriter != nil && ghost.trN >= 0
@@ -875,10 +974,11 @@ func specInterrupts() bool {
 //@   ensures [C01.gate] implies(!old(specAdmits(specDefaultEntry().level, ErrorLevel)), ghost.emits == old(ghost.emits))
 //@   ensures [C01.emit] implies(old(specAdmits(specDefaultEntry().level, ErrorLevel)), ghost.emits > old(ghost.emits))
 //@   at call logctx assert [C01.sev] callee.lvl == ErrorLevel
+//@   fd entry
 //@
 //@ func Warn
-//@   props C01 C02 C12 C13
-//@   requires specDefaultEntry() != nil && specFmtInv(specDefaultEntry())
+//@   props C01 C02 C12 C13 C14
+//@   requires specDefaultEntry() != nil && specFmtInv(specDefaultEntry()) && 0 <= specDefaultEntry().extraFrames && specDefaultEntry().extraFrames <= 1048576
 //@   assigns everything
 //@   keeps PrintCtx.off, PrintCtx.lvl
 //@   requires defaultWriter != nil && ghost.trN >= 0
@@ -895,10 +995,11 @@ func specInterrupts() bool {
 //@   ensures [C01.gate] implies(!old(specAdmits(specDefaultEntry().level, WarnLevel)), ghost.emits == old(ghost.emits))
 //@   ensures [C01.emit] implies(old(specAdmits(specDefaultEntry().level, WarnLevel)), ghost.emits > old(ghost.emits))
 //@   at call logctx assert [C01.sev] callee.lvl == WarnLevel
+//@   fd entry
 //@
 //@ func Info
-//@   props C01 C02 C12 C13
-//@   requires specDefaultEntry() != nil && specFmtInv(specDefaultEntry())
+//@   props C01 C02 C12 C13 C14
+//@   requires specDefaultEntry() != nil && specFmtInv(specDefaultEntry()) && 0 <= specDefaultEntry().extraFrames && specDefaultEntry().extraFrames <= 1048576
 //@   assigns everything
 //@   keeps PrintCtx.off, PrintCtx.lvl
 //@   requires defaultWriter != nil && ghost.trN >= 0
@@ -915,10 +1016,11 @@ func specInterrupts() bool {
 //@   ensures [C01.gate] implies(!old(specAdmits(specDefaultEntry().level, InfoLevel)), ghost.emits == old(ghost.emits))
 //@   ensures [C01.emit] implies(old(specAdmits(specDefaultEntry().level, InfoLevel)), ghost.emits > old(ghost.emits))
 //@   at call logctx assert [C01.sev] callee.lvl == InfoLevel
+//@   fd entry
 //@
 //@ func Debug
-//@   props C01 C02 C12 C13
-//@   requires specDefaultEntry() != nil && specFmtInv(specDefaultEntry())
+//@   props C01 C02 C12 C13 C14
+//@   requires specDefaultEntry() != nil && specFmtInv(specDefaultEntry()) && 0 <= specDefaultEntry().extraFrames && specDefaultEntry().extraFrames <= 1048576
 //@   assigns everything
 //@   keeps PrintCtx.off, PrintCtx.lvl
 //@   requires defaultWriter != nil && ghost.trN >= 0
@@ -935,10 +1037,11 @@ func specInterrupts() bool {
 //@   ensures [C01.gate] implies(!old(specAdmits(specDefaultEntry().level, DebugLevel)), ghost.emits == old(ghost.emits))
 //@   ensures [C01.emit] implies(old(specAdmits(specDefaultEntry().level, DebugLevel)), ghost.emits > old(ghost.emits))
 //@   at call logctx assert [C01.sev] callee.lvl == DebugLevel
+//@   fd entry
 //@
 //@ func Trace
-//@   props C01 C02 C12 C13
-//@   requires specDefaultEntry() != nil && specFmtInv(specDefaultEntry())
+//@   props C01 C02 C12 C13 C14
+//@   requires specDefaultEntry() != nil && specFmtInv(specDefaultEntry()) && 0 <= specDefaultEntry().extraFrames && specDefaultEntry().extraFrames <= 1048576
 //@   assigns everything
 //@   keeps PrintCtx.off, PrintCtx.lvl
 //@   requires defaultWriter != nil && ghost.trN >= 0
@@ -955,10 +1058,11 @@ func specInterrupts() bool {
 //@   ensures [C01.gate] implies(!old(specAdmits(specDefaultEntry().level, TraceLevel)), ghost.emits == old(ghost.emits))
 //@   ensures [C01.emit] implies(old(specAdmits(specDefaultEntry().level, TraceLevel)), ghost.emits > old(ghost.emits))
 //@   at call logctx assert [C01.sev] callee.lvl == TraceLevel
+//@   fd entry
 //@
 //@ func Print
-//@   props C01 C02 C12 C13
-//@   requires specDefaultEntry() != nil && specFmtInv(specDefaultEntry())
+//@   props C01 C02 C12 C13 C14
+//@   requires specDefaultEntry() != nil && specFmtInv(specDefaultEntry()) && 0 <= specDefaultEntry().extraFrames && specDefaultEntry().extraFrames <= 1048576
 //@   assigns everything
 //@   keeps PrintCtx.off, PrintCtx.lvl
 //@   requires defaultWriter != nil && ghost.trN >= 0
@@ -975,10 +1079,11 @@ func specInterrupts() bool {
 //@   ensures [C01.gate] implies(!old(specAdmits(specDefaultEntry().level, AlwaysLevel)), ghost.emits == old(ghost.emits))
 //@   ensures [C01.emit] implies(old(specAdmits(specDefaultEntry().level, AlwaysLevel)), ghost.emits > old(ghost.emits))
 //@   at call logctx assert [C01.sev] callee.lvl == AlwaysLevel
+//@   fd entry
 //@
 //@ func OK
-//@   props C01 C02 C12 C13
-//@   requires specDefaultEntry() != nil && specFmtInv(specDefaultEntry())
+//@   props C01 C02 C12 C13 C14
+//@   requires specDefaultEntry() != nil && specFmtInv(specDefaultEntry()) && 0 <= specDefaultEntry().extraFrames && specDefaultEntry().extraFrames <= 1048576
 //@   assigns everything
 //@   keeps PrintCtx.off, PrintCtx.lvl
 //@   requires defaultWriter != nil && ghost.trN >= 0
@@ -995,10 +1100,11 @@ func specInterrupts() bool {
 //@   ensures [C01.gate] implies(!old(specAdmits(specDefaultEntry().level, OKLevel)), ghost.emits == old(ghost.emits))
 //@   ensures [C01.emit] implies(old(specAdmits(specDefaultEntry().level, OKLevel)), ghost.emits > old(ghost.emits))
 //@   at call logctx assert [C01.sev] callee.lvl == OKLevel
+//@   fd entry
 //@
 //@ func Success
-//@   props C01 C02 C12 C13
-//@   requires specDefaultEntry() != nil && specFmtInv(specDefaultEntry())
+//@   props C01 C02 C12 C13 C14
+//@   requires specDefaultEntry() != nil && specFmtInv(specDefaultEntry()) && 0 <= specDefaultEntry().extraFrames && specDefaultEntry().extraFrames <= 1048576
 //@   assigns everything
 //@   keeps PrintCtx.off, PrintCtx.lvl
 //@   requires defaultWriter != nil && ghost.trN >= 0
@@ -1015,10 +1121,11 @@ func specInterrupts() bool {
 //@   ensures [C01.gate] implies(!old(specAdmits(specDefaultEntry().level, SuccessLevel)), ghost.emits == old(ghost.emits))
 //@   ensures [C01.emit] implies(old(specAdmits(specDefaultEntry().level, SuccessLevel)), ghost.emits > old(ghost.emits))
 //@   at call logctx assert [C01.sev] callee.lvl == SuccessLevel
+//@   fd entry
 //@
 //@ func Fail
-//@   props C01 C02 C12 C13
-//@   requires specDefaultEntry() != nil && specFmtInv(specDefaultEntry())
+//@   props C01 C02 C12 C13 C14
+//@   requires specDefaultEntry() != nil && specFmtInv(specDefaultEntry()) && 0 <= specDefaultEntry().extraFrames && specDefaultEntry().extraFrames <= 1048576
 //@   assigns everything
 //@   keeps PrintCtx.off, PrintCtx.lvl
 //@   requires defaultWriter != nil && ghost.trN >= 0
@@ -1035,10 +1142,11 @@ func specInterrupts() bool {
 //@   ensures [C01.gate] implies(!old(specAdmits(specDefaultEntry().level, FailLevel)), ghost.emits == old(ghost.emits))
 //@   ensures [C01.emit] implies(old(specAdmits(specDefaultEntry().level, FailLevel)), ghost.emits > old(ghost.emits))
 //@   at call logctx assert [C01.sev] callee.lvl == FailLevel
+//@   fd entry
 //@
 //@ func Println
-//@   props C01 C02 C12 C13
-//@   requires specDefaultEntry() != nil && specFmtInv(specDefaultEntry())
+//@   props C01 C02 C12 C13 C14
+//@   requires specDefaultEntry() != nil && specFmtInv(specDefaultEntry()) && 0 <= specDefaultEntry().extraFrames && specDefaultEntry().extraFrames <= 1048576
 //@   assigns everything
 //@   keeps PrintCtx.off, PrintCtx.lvl
 //@   requires defaultWriter != nil && ghost.trN >= 0
@@ -1055,10 +1163,11 @@ func specInterrupts() bool {
 //@   ensures [C01.gate] implies(!old(specAdmits(specDefaultEntry().level, AlwaysLevel)), ghost.emits == old(ghost.emits))
 //@   ensures [C01.emit] implies(old(specAdmits(specDefaultEntry().level, AlwaysLevel)), ghost.emits > old(ghost.emits))
 //@   at call logctx assert [C01.sev] callee.lvl == AlwaysLevel
+//@   fd entry
 //@
 //@ func PanicContext
-//@   props C01 C02 C12 C13
-//@   requires specDefaultEntry() != nil && specFmtInv(specDefaultEntry())
+//@   props C01 C02 C12 C13 C14
+//@   requires specDefaultEntry() != nil && specFmtInv(specDefaultEntry()) && 0 <= specDefaultEntry().extraFrames && specDefaultEntry().extraFrames <= 1048576
 //@   assigns everything
 //@   keeps PrintCtx.off, PrintCtx.lvl
 //@   panics [C12.panic] when specAdmits(specDefaultEntry().level, PanicLevel) && specInterrupts() && isnil(specDefaultEntry().handlerOpt)
@@ -1076,10 +1185,11 @@ func specInterrupts() bool {
 //@   ensures [C01.gate] implies(!old(specAdmits(specDefaultEntry().level, PanicLevel)), ghost.emits == old(ghost.emits))
 //@   ensures [C01.emit] implies(old(specAdmits(specDefaultEntry().level, PanicLevel)), ghost.emits > old(ghost.emits))
 //@   at call logctxctx assert [C01.sev] callee.lvl == PanicLevel
+//@   fd entry
 //@
 //@ func FatalContext
-//@   props C01 C02 C12 C13
-//@   requires specDefaultEntry() != nil && specFmtInv(specDefaultEntry())
+//@   props C01 C02 C12 C13 C14
+//@   requires specDefaultEntry() != nil && specFmtInv(specDefaultEntry()) && 0 <= specDefaultEntry().extraFrames && specDefaultEntry().extraFrames <= 1048576
 //@   assigns everything
 //@   keeps PrintCtx.off, PrintCtx.lvl
 //@   exits [C12.exit] when specAdmits(specDefaultEntry().level, FatalLevel) && specInterrupts() && isnil(specDefaultEntry().handlerOpt)
@@ -1097,10 +1207,11 @@ func specInterrupts() bool {
 //@   ensures [C01.gate] implies(!old(specAdmits(specDefaultEntry().level, FatalLevel)), ghost.emits == old(ghost.emits))
 //@   ensures [C01.emit] implies(old(specAdmits(specDefaultEntry().level, FatalLevel)), ghost.emits > old(ghost.emits))
 //@   at call logctxctx assert [C01.sev] callee.lvl == FatalLevel
+//@   fd entry
 //@
 //@ func ErrorContext
-//@   props C01 C02 C12 C13
-//@   requires specDefaultEntry() != nil && specFmtInv(specDefaultEntry())
+//@   props C01 C02 C12 C13 C14
+//@   requires specDefaultEntry() != nil && specFmtInv(specDefaultEntry()) && 0 <= specDefaultEntry().extraFrames && specDefaultEntry().extraFrames <= 1048576
 //@   assigns everything
 //@   keeps PrintCtx.off, PrintCtx.lvl
 //@   requires defaultWriter != nil && ghost.trN >= 0
@@ -1117,10 +1228,11 @@ func specInterrupts() bool {
 //@   ensures [C01.gate] implies(!old(specAdmits(specDefaultEntry().level, ErrorLevel)), ghost.emits == old(ghost.emits))
 //@   ensures [C01.emit] implies(old(specAdmits(specDefaultEntry().level, ErrorLevel)), ghost.emits > old(ghost.emits))
 //@   at call logctxctx assert [C01.sev] callee.lvl == ErrorLevel
+//@   fd entry
 //@
 //@ func WarnContext
-//@   props C01 C02 C12 C13
-//@   requires specDefaultEntry() != nil && specFmtInv(specDefaultEntry())
+//@   props C01 C02 C12 C13 C14
+//@   requires specDefaultEntry() != nil && specFmtInv(specDefaultEntry()) && 0 <= specDefaultEntry().extraFrames && specDefaultEntry().extraFrames <= 1048576
 //@   assigns everything
 //@   keeps PrintCtx.off, PrintCtx.lvl
 //@   requires defaultWriter != nil && ghost.trN >= 0
@@ -1137,10 +1249,11 @@ func specInterrupts() bool {
 //@   ensures [C01.gate] implies(!old(specAdmits(specDefaultEntry().level, WarnLevel)), ghost.emits == old(ghost.emits))
 //@   ensures [C01.emit] implies(old(specAdmits(specDefaultEntry().level, WarnLevel)), ghost.emits > old(ghost.emits))
 //@   at call logctxctx assert [C01.sev] callee.lvl == WarnLevel
+//@   fd entry
 //@
 //@ func InfoContext
-//@   props C01 C02 C12 C13
-//@   requires specDefaultEntry() != nil && specFmtInv(specDefaultEntry())
+//@   props C01 C02 C12 C13 C14
+//@   requires specDefaultEntry() != nil && specFmtInv(specDefaultEntry()) && 0 <= specDefaultEntry().extraFrames && specDefaultEntry().extraFrames <= 1048576
 //@   assigns everything
 //@   keeps PrintCtx.off, PrintCtx.lvl
 //@   requires defaultWriter != nil && ghost.trN >= 0
@@ -1157,10 +1270,11 @@ func specInterrupts() bool {
 //@   ensures [C01.gate] implies(!old(specAdmits(specDefaultEntry().level, InfoLevel)), ghost.emits == old(ghost.emits))
 //@   ensures [C01.emit] implies(old(specAdmits(specDefaultEntry().level, InfoLevel)), ghost.emits > old(ghost.emits))
 //@   at call logctxctx assert [C01.sev] callee.lvl == InfoLevel
+//@   fd entry
 //@
 //@ func DebugContext
-//@   props C01 C02 C12 C13
-//@   requires specDefaultEntry() != nil && specFmtInv(specDefaultEntry())
+//@   props C01 C02 C12 C13 C14
+//@   requires specDefaultEntry() != nil && specFmtInv(specDefaultEntry()) && 0 <= specDefaultEntry().extraFrames && specDefaultEntry().extraFrames <= 1048576
 //@   assigns everything
 //@   keeps PrintCtx.off, PrintCtx.lvl
 //@   requires defaultWriter != nil && ghost.trN >= 0
@@ -1177,10 +1291,11 @@ func specInterrupts() bool {
 //@   ensures [C01.gate] implies(!old(specAdmits(specDefaultEntry().level, DebugLevel)), ghost.emits == old(ghost.emits))
 //@   ensures [C01.emit] implies(old(specAdmits(specDefaultEntry().level, DebugLevel)), ghost.emits > old(ghost.emits))
 //@   at call logctxctx assert [C01.sev] callee.lvl == DebugLevel
+//@   fd entry
 //@
 //@ func TraceContext
-//@   props C01 C02 C12 C13
-//@   requires specDefaultEntry() != nil && specFmtInv(specDefaultEntry())
+//@   props C01 C02 C12 C13 C14
+//@   requires specDefaultEntry() != nil && specFmtInv(specDefaultEntry()) && 0 <= specDefaultEntry().extraFrames && specDefaultEntry().extraFrames <= 1048576
 //@   assigns everything
 //@   keeps PrintCtx.off, PrintCtx.lvl
 //@   requires defaultWriter != nil && ghost.trN >= 0
@@ -1197,10 +1312,11 @@ func specInterrupts() bool {
 //@   ensures [C01.gate] implies(!old(specAdmits(specDefaultEntry().level, TraceLevel)), ghost.emits == old(ghost.emits))
 //@   ensures [C01.emit] implies(old(specAdmits(specDefaultEntry().level, TraceLevel)), ghost.emits > old(ghost.emits))
 //@   at call logctxctx assert [C01.sev] callee.lvl == TraceLevel
+//@   fd entry
 //@
 //@ func PrintContext
-//@   props C01 C02 C12 C13
-//@   requires specDefaultEntry() != nil && specFmtInv(specDefaultEntry())
+//@   props C01 C02 C12 C13 C14
+//@   requires specDefaultEntry() != nil && specFmtInv(specDefaultEntry()) && 0 <= specDefaultEntry().extraFrames && specDefaultEntry().extraFrames <= 1048576
 //@   assigns everything
 //@   keeps PrintCtx.off, PrintCtx.lvl
 //@   requires defaultWriter != nil && ghost.trN >= 0
@@ -1217,10 +1333,11 @@ func specInterrupts() bool {
 //@   ensures [C01.gate] implies(!old(specAdmits(specDefaultEntry().level, AlwaysLevel)), ghost.emits == old(ghost.emits))
 //@   ensures [C01.emit] implies(old(specAdmits(specDefaultEntry().level, AlwaysLevel)), ghost.emits > old(ghost.emits))
 //@   at call logctxctx assert [C01.sev] callee.lvl == AlwaysLevel
+//@   fd entry
 //@
 //@ func OKContext
-//@   props C01 C02 C12 C13
-//@   requires specDefaultEntry() != nil && specFmtInv(specDefaultEntry())
+//@   props C01 C02 C12 C13 C14
+//@   requires specDefaultEntry() != nil && specFmtInv(specDefaultEntry()) && 0 <= specDefaultEntry().extraFrames && specDefaultEntry().extraFrames <= 1048576
 //@   assigns everything
 //@   keeps PrintCtx.off, PrintCtx.lvl
 //@   requires defaultWriter != nil && ghost.trN >= 0
@@ -1237,10 +1354,11 @@ func specInterrupts() bool {
 //@   ensures [C01.gate] implies(!old(specAdmits(specDefaultEntry().level, OKLevel)), ghost.emits == old(ghost.emits))
 //@   ensures [C01.emit] implies(old(specAdmits(specDefaultEntry().level, OKLevel)), ghost.emits > old(ghost.emits))
 //@   at call logctxctx assert [C01.sev] callee.lvl == OKLevel
+//@   fd entry
 //@
 //@ func SuccessContext
-//@   props C01 C02 C12 C13
-//@   requires specDefaultEntry() != nil && specFmtInv(specDefaultEntry())
+//@   props C01 C02 C12 C13 C14
+//@   requires specDefaultEntry() != nil && specFmtInv(specDefaultEntry()) && 0 <= specDefaultEntry().extraFrames && specDefaultEntry().extraFrames <= 1048576
 //@   assigns everything
 //@   keeps PrintCtx.off, PrintCtx.lvl
 //@   requires defaultWriter != nil && ghost.trN >= 0
@@ -1257,10 +1375,11 @@ func specInterrupts() bool {
 //@   ensures [C01.gate] implies(!old(specAdmits(specDefaultEntry().level, SuccessLevel)), ghost.emits == old(ghost.emits))
 //@   ensures [C01.emit] implies(old(specAdmits(specDefaultEntry().level, SuccessLevel)), ghost.emits > old(ghost.emits))
 //@   at call logctxctx assert [C01.sev] callee.lvl == SuccessLevel
+//@   fd entry
 //@
 //@ func FailContext
-//@   props C01 C02 C12 C13
-//@   requires specDefaultEntry() != nil && specFmtInv(specDefaultEntry())
+//@   props C01 C02 C12 C13 C14
+//@   requires specDefaultEntry() != nil && specFmtInv(specDefaultEntry()) && 0 <= specDefaultEntry().extraFrames && specDefaultEntry().extraFrames <= 1048576
 //@   assigns everything
 //@   keeps PrintCtx.off, PrintCtx.lvl
 //@   requires defaultWriter != nil && ghost.trN >= 0
@@ -1277,10 +1396,11 @@ func specInterrupts() bool {
 //@   ensures [C01.gate] implies(!old(specAdmits(specDefaultEntry().level, FailLevel)), ghost.emits == old(ghost.emits))
 //@   ensures [C01.emit] implies(old(specAdmits(specDefaultEntry().level, FailLevel)), ghost.emits > old(ghost.emits))
 //@   at call logctxctx assert [C01.sev] callee.lvl == FailLevel
+//@   fd entry
 //@
 //@ func PrintlnContext
-//@   props C01 C02 C12 C13
-//@   requires specDefaultEntry() != nil && specFmtInv(specDefaultEntry())
+//@   props C01 C02 C12 C13 C14
+//@   requires specDefaultEntry() != nil && specFmtInv(specDefaultEntry()) && 0 <= specDefaultEntry().extraFrames && specDefaultEntry().extraFrames <= 1048576
 //@   assigns everything
 //@   keeps PrintCtx.off, PrintCtx.lvl
 //@   requires defaultWriter != nil && ghost.trN >= 0
@@ -1297,10 +1417,11 @@ func specInterrupts() bool {
 //@   ensures [C01.gate] implies(!old(specAdmits(specDefaultEntry().level, AlwaysLevel)), ghost.emits == old(ghost.emits))
 //@   ensures [C01.emit] implies(old(specAdmits(specDefaultEntry().level, AlwaysLevel)), ghost.emits > old(ghost.emits))
 //@   at call logctxctx assert [C01.sev] callee.lvl == AlwaysLevel
+//@   fd entry
 //@
 //@ func logctx
-//@   props C01 C02 C12 C13
-//@   requires specDefaultEntry() != nil && specFmtInv(specDefaultEntry())
+//@   props C01 C02 C12 C13 C14
+//@   requires specDefaultEntry() != nil && specFmtInv(specDefaultEntry()) && 0 <= specDefaultEntry().extraFrames && specDefaultEntry().extraFrames <= 1048576
 //@   assigns everything
 //@   keeps PrintCtx.off, PrintCtx.lvl
 //@   panics [C12.panic] when lvl == PanicLevel && specAdmits(specDefaultEntry().level, lvl) && specInterrupts() && isnil(specDefaultEntry().handlerOpt)
@@ -1319,10 +1440,12 @@ func specInterrupts() bool {
 //@   ensures [C01.gate] implies(!old(specAdmits(specDefaultEntry().level, lvl)), ghost.emits == old(ghost.emits))
 //@   ensures [C01.emit] implies(old(specAdmits(specDefaultEntry().level, lvl)), ghost.emits > old(ghost.emits))
 //@   at call logctxctx assert [C01.sev] callee.lvl == lvl
+//@   fd 1
 //@
 //@ func logctxctx
-//@   props C01 C02 C12 C13
-//@   requires specDefaultEntry() != nil && specFmtInv(specDefaultEntry())
+//@   props C01 C02 C12 C13 C14
+//@   requires specDefaultEntry() != nil && specFmtInv(specDefaultEntry()) && 0 <= specDefaultEntry().extraFrames && specDefaultEntry().extraFrames <= 1048576
+//@   requires [C14.inc] inc == fd - 1 && 0 <= inc && inc <= 16
 //@   assigns everything
 //@   keeps PrintCtx.off, PrintCtx.lvl
 //@   panics [C12.panic] when lvl == PanicLevel && specAdmits(specDefaultEntry().level, lvl) && specInterrupts() && isnil(specDefaultEntry().handlerOpt)
@@ -1341,6 +1464,8 @@ func specInterrupts() bool {
 //@   ensures [C01.gate] implies(!old(specAdmits(specDefaultEntry().level, lvl)), ghost.emits == old(ghost.emits))
 //@   ensures [C01.emit] implies(old(specAdmits(specDefaultEntry().level, lvl)), ghost.emits > old(ghost.emits))
 //@   at call (*Entry).logContext assert [C01.sev] callee.lvl == lvl && callee.s == specDefaultEntry()
+//@   at call getpc assert [C14.extra] callee.extra == specDefaultEntry().extraFrames
+//@   at call (*Entry).logContext assert [C14.pc] callee.stackFrame == ghost.ioPC
 //@
 
 // ---------------------------------------------------------------- C11 format state machine
@@ -2078,6 +2203,10 @@ func specTellable(m LogWriter) bool {
 //@   props C02 C07
 //@   auto
 //@   requires !isnil(ctx)
+
+
+
+
 
 
 
